@@ -40,7 +40,7 @@ AUDIT = "Ymq.Audit.C13"
 THEOREMS = ["Ymq.C13." + t for t in (
     "cursor_inv small_recovery table_recovery large_table_recovery recycled_clean listed_complete_inv "
     "listed_complete listed_complete_rehash no_panic no_panic_rehash cofactor_no_panic fbase_new_classes log_sum_bound "
-    "cofactor_spec " + "accumulator_hits_spec class_loops_cover accumulator_spec_small accumulator_spec_tables accumulator_spec_partial accumulator_overflow_iff accumulator_overflow_witness accumulator_no_overflow_small accumulator_no_overflow_partial smooths_threshold_spec smooth_candidate_reported table_bucket_exact").split()]
+    "cofactor_spec " + "accumulator_hits_spec class_loops_cover accumulator_spec_small accumulator_spec_tables accumulator_spec_partial accumulator_overflow_iff accumulator_overflow_witness accumulator_no_overflow_small accumulator_no_overflow_tables accumulator_no_overflow_partial smooths_threshold_spec smooth_candidate_reported table_bucket_exact").split()]
 PROFILES = ["release", "chk"]
 TIMEOUT = 120.0
 HYPOTHESES = [
@@ -1258,9 +1258,9 @@ UNMODELLED = [
     "form blk[x] = sum of bitlen p over the non-skipped primes with a root at x is proved for the primes below the block size "
     "(class_loops_cover, accumulator_spec_small, accumulator_no_overflow_small) and, for factor bases below 2^18 on the path "
     "new -> b < nblocks rounds -> sieve_block with n_overflows = 0 in every size-class table, including the table primes "
-    "(accumulator_spec_tables: table_bucket_exact carried through the nested loops of Sieve::new and the read loops of "
-    "sieve_block). NOT proved: the same exactness for SieveTableLarge (primes >= 2^18), for the tables re-filled by rehash, the "
-    "inequality `table term <= sum` when overflows were counted, and the no-overflow theorem with table primes; the closed form "
+    "(accumulator_spec_tables, accumulator_no_overflow_tables: table_bucket_exact carried through the nested loops of Sieve::new "
+    "and the read loops of sieve_block). NOT proved: the same exactness for SieveTableLarge (primes >= 2^18), for the tables "
+    "re-filled by rehash, and the inequality `table term <= sum` when overflows were counted (classes 16..18); the closed form "
     "including all of these is checked on the code by the independent oracle",
     "log_sum_bound gives the region where the u8 log accumulators cannot overflow (bitlen(value) + number "
     "of distinct prime divisors <= 256); beyond it the overflow is reachable (finding reported: 398-bit n, Algo::Qs, checked profile)",
